@@ -126,13 +126,14 @@ def run(rep):
         return
     d = C.astdump(src, os.path.join(wd, "c14.json"),
                   ["^boost::gil::(%s)$" % "|".join(list(ALGOS) + FACTORIES), "^boost::gil::detail::[A-Za-z0-9_]+_(view_fn|pixels_fn|pixel_fn|pixels_fn1)::", "^boost::gil::binary_operation_obj::",
-                   "^boost::gil::any_image::", "^boost::gil::any_image_view::", "^boost::gil::detail::(any_type_get_[A-Za-z0-9_]+|recreate_image_fnobj)::"])
+                   "^boost::gil::any_image::", "^boost::gil::any_image_view::", "^boost::gil::image::recreate$", "^boost::gil::detail::(any_type_get_[A-Za-z0-9_]+|recreate_image_fnobj)::"])
     fns = d["functions"]
     rep.units.append("c14_witness.cpp: %d instantiated functions dumped" % len(fns))
     forwarding(rep, fns)
     factories(rep, fns)
     anyimage(rep, fns)
     stored_parameters(rep, fns)
+    forwarded_defaults(rep, fns)
     rep.floor("obligations:D1", 40)
     rep.floor("obligations:D2", 60)
     rep.floor("rule:D2-factory", 30)
@@ -416,3 +417,60 @@ def stored_parameters(rep, fns):
         else:
             rep.ok("D5-stored-parameter", "D5:%s" % short, sorted(c["stored"]))
     rep.floor("obligations:D5", 6)
+
+
+def forwarded_defaults(rep, fns):
+    """D6: any_image::recreate(dims[, alignment]) forwards to image::recreate(dims, alignment) of the held alternative. The argument the caller leaves out is filled in by the
+    forwarding function's own default: it must be the default of the function it forwards to, or the same call means something else on the dynamic image."""
+    rep.rule("D6 every overload of any_image::recreate has, for the parameters it shares with the overload of image::recreate of the same leading parameter types, the same default "
+             "argument values (image::recreate(3,2) on an image that already is 3x2 with alignment 0 is a no-op; with any_image's default of 1 the pixels were cleared)")
+    def sig(f):
+        out = []
+        for p_ in f["params"]:
+            if p_.get("default") is not None:
+                break
+            out.append("point" if "point" in p_["type"] else "coord")
+        return tuple(out)
+
+    def defaults(f):
+        d = {}
+        for p_ in f["params"]:
+            if p_.get("default") is not None:
+                n = p_["default"]
+                v = None
+                while isinstance(n, dict):
+                    if "const" in n:
+                        v = str(n["const"])
+                        break
+                    n = n.get("e") if n.get("k") in ("ImplicitCast", "ExplicitCast", "Paren", "DefaultArg") else None
+                d[p_["name"]] = v if v is not None else R.key(p_["default"])[:40]
+        return d
+    stat = {}
+    for f in fns:
+        if f["name"] == "boost::gil::image::recreate" and defaults(f):
+            stat.setdefault(sig(f), defaults(f))
+    seen = set()
+    for f in fns:
+        if f["name"] != "boost::gil::any_image::recreate" or sig(f) in seen:
+            continue
+        seen.add(sig(f))
+        rep.count("obligations:D6")
+        dd = defaults(f)
+        key = "D6:any_image::recreate(%s)" % ",".join(sig(f))
+        want = stat.get(sig(f))
+        if want is None and stat:
+            # the (width, height) overload forwards to image::recreate(point, alignment) as well: parameters are matched by name across the static overloads
+            want = {}
+            for w_ in stat.values():
+                for n_, v_ in w_.items():
+                    want.setdefault(n_, v_)
+        if want is None:
+            rep.incon("D6-forwarded-default", key, {"why": "no image::recreate overload with the same leading parameters and a default argument in the dump", "found": sorted(stat)})
+            continue
+        diff = {n: (dd[n], want[n]) for n in dd if n in want and dd[n] != want[n]}
+        if diff:
+            rep.violation("D6-forwarded-default", key, R.fn_where(f), {"default here / in image::recreate": diff,
+                          "example": "any_image a(rgb8_image_t(3,2) filled with (1,2,3)); a.recreate(3,2): the pixels are 0 0 0, the same call on the image itself leaves them alone"})
+        else:
+            rep.ok("D6-forwarded-default", key, dd)
+    rep.floor("obligations:D6", 2)
